@@ -11,27 +11,34 @@ Definition pc_endclose (pc : jpc) : bool := match pc with JEndClose => true | _ 
 Definition run_all (P : jpc -> bool) (r : option (nat * jpc)) : bool := match r with Some (_, pc) => P pc | None => true end.
 Definition run_some (P : jpc -> bool) (r : option (nat * jpc)) : bool := match r with Some (_, pc) => P pc | None => false end.
 Definition is_takefn (w : wk) : bool := match w with WTakeFn => true | _ => false end.
+Definition is_sync (w : wk) : bool := match w with WSync => true | _ => false end.
+Definition ch_sync (c : chst) : bool := match c with ChSync => true | _ => false end.
 
 Section Closed.
   Context (F : pfacts) (f : nat -> nat).
 
   Definition inv_closed (s : state) : Prop :=
-    (dropped s = false -> s.(strong_held) = true /\ s.(chute) = false) /\
+    (dropped s = false -> s.(strong_held) = true /\ s.(chute) = ChIdle) /\
     (is_takefn s.(cwk) = true -> s.(strong_held) = false) /\
     (is_takefn s.(ewk) = true -> s.(strong_held) = false) /\
     (dropped s = false -> s.(poll_fn) = false -> s.(closed) = true) /\
     (dropped s = false -> s.(closed) = true -> s.(inp_rest) = [] /\ run_all pc_after_close s.(running) = true) /\
     (dropped s = false -> run_some pc_retfalse s.(running) = true -> s.(closed) = true) /\
     (run_some pc_endclose s.(running) = true -> s.(inp_rest) = []) /\
-    (s.(cst) = CDone -> s.(closed) = true /\ s.(pending) = [] /\ s.(got_end) = true).
+    (s.(cst) = CDone -> s.(closed) = true /\ s.(pending) = [] /\ s.(got_end) = true) /\
+    (* whoever is inside Desync::drop dropped the last reference: the pipe's own is gone *)
+    (is_sync s.(cwk) = true -> s.(strong_held) = false) /\
+    (is_sync s.(ewk) = true -> s.(strong_held) = false) /\
+    (ch_sync s.(chute) = true -> s.(strong_held) = false) /\
+    (s.(xsync) = true -> s.(strong_held) = false).
 
-  Lemma inv_closed_init inputs ext : inv_closed (init F inputs ext).
+  Lemma inv_closed_init inputs sl ext : inv_closed (init_slow F inputs sl ext).
   Proof. unfold inv_closed; cbn. split_and!; done. Qed.
 
   Lemma step_inv_closed inputs s a s' :
     inv_data f inputs s -> inv_closed s -> step F f s a = Some s' -> inv_closed s'.
   Proof.
-    intros (_ & D2 & D3 & _) (C1 & C2 & C3 & C4 & C5 & C6 & C7 & C8) Hs. step_cases Hs.
+    intros (_ & D2 & D3 & _) (C1 & C2 & C3 & C4 & C5 & C6 & C7 & C8 & C9 & C10 & C11 & C12) Hs. step_cases Hs.
     all: unfold inv_closed, dropped in *; cbn in *.
     all: split_and!; try done.
     all: try (destruct bp; done); try (destruct nsc; done); try (destruct inp_waker; done).
@@ -47,7 +54,7 @@ Section Closed.
   Qed.
 
   Definition inv_bp (s : state) : Prop := dropped s = false -> is_Some s.(notify) -> s.(bp) = None.
-  Lemma inv_bp_init inputs ext : inv_bp (init F inputs ext).
+  Lemma inv_bp_init inputs sl ext : inv_bp (init_slow F inputs sl ext).
   Proof. by intros _ [? [=]]. Qed.
   Lemma step_inv_bp s a s' :
     inv_depth s -> inv_notify s -> inv_bp s -> step F f s a = Some s' -> inv_bp s'.
